@@ -12,7 +12,7 @@ COQ = os.path.join(VERIF, 'coq')
 BIN = os.path.join(WORK, 'bin')
 EXTRACT = os.path.join(WORK, 'extract')
 REPLAY = os.path.join(WORK, 'replay')
-for d in (WORK, BIN, EXTRACT, REPLAY, os.path.join(VERIF, 'evidence')):
+for d in (WORK, BIN, EXTRACT, REPLAY, os.path.join(VERIF, 'evidence'), os.path.join(COQ, 'theories', 'gen')):      # (gen/ is not under version control)
     os.makedirs(d, exist_ok=True)
 
 ALLOWED_AXIOMS = {
